@@ -293,6 +293,9 @@ class World(object):
         if k == 'file':
             return {'mtime': self.thr_file}
         conf = {}
+        if a >= 86400:
+            conf['days'] = a // 86400
+            a = a % 86400
         if a >= 3600:
             conf['hours'] = a // 3600
             a = a % 3600
@@ -1008,21 +1011,39 @@ def spec_to_code(ctx, prec, tally, covers):
 
 
 # ---- code -> spec ----------------------------------------------------------------------------
-def random_history(rng, world, nops, tally):
-    """drive the real code at random, one event per spec action with its observation"""
+def unit_script(names):
+    """relative rules written with several units at once (hours + minutes + seconds ...): tiles whose age lies between the
+    largest unit alone and the full sum are served from the cache, older ones are fetched again"""
+    t1, t2, t3 = names[0], names[1], names[2]
+    return [
+        {'op': 'set', 'rule': R('age', 90)}, {'op': 'request', 'tiles': [t1]}, {'op': 'tick', 'd': 150},
+        {'op': 'request', 'tiles': [t1]}, {'op': 'tick', 'd': 40}, {'op': 'request', 'tiles': [t1]},
+        {'op': 'set', 'rule': R('age', 3690)}, {'op': 'request', 'tiles': [t2]}, {'op': 'tick', 'd': 7300},
+        {'op': 'request', 'tiles': [t2, t1]}, {'op': 'tick', 'd': 100}, {'op': 'request', 'tiles': [t2]},
+        {'op': 'set', 'rule': R('none')}, {'op': 'request', 'tiles': [t3]}, {'op': 'tick', 'd': 2 * 86400 + 7300},
+        {'op': 'seed', 'rule': R('age', 86400 + 3600 + 60 + 30)}, {'op': 'tick', 'd': 300},
+        {'op': 'seed', 'rule': R('age', 86400 + 3600 + 60 + 30)}, {'op': 'tick', 'd': 3},
+        {'op': 'set', 'rule': R('age', 86400 + 3600 + 60 + 30)}, {'op': 'request', 'tiles': [t3, t2]},
+    ]
+
+
+def random_history(rng, world, nops, tally, script=None):
+    """drive the real code at random (or along a script), one event per spec action with its observation"""
     events = []
     names = world.names
     clock, file_m, up = CLOCK0, FILE0, True
     rule = R('none')
     cache = {n: [-1, 0] for n in names}
     err = None
-    ages = [0, 1, 1, 2, 3, 60, 61, 3600]
-    for i in range(nops):
-        k = rng.random()
-        if k < 0.34:
+    ages = [0, 1, 1, 2, 3, 60, 61, 90, 3600, 3690]
+    for i in range(len(script) if script is not None else nops):
+        k = rng.random() if script is None else 2.0
+        if script is not None:
+            ev = dict(script[i])
+        elif k < 0.34:
             ev = {'op': 'request', 'tiles': rng.sample(names, rng.randint(1, min(3, len(names))))}
         elif k < 0.52:
-            ev = {'op': 'tick', 'd': rng.choice([1, 1, 2, 2, 3, 4, 5, 120, 121, 7200])}
+            ev = {'op': 'tick', 'd': rng.choice([1, 1, 2, 2, 3, 4, 5, 120, 121, 150, 7200, 7300])}
         elif k < 0.66 or rule['kind'] == 'none' and k < 0.72:
             kind = rng.choice(['time', 'age', 'age', 'file', 'none'])
             arg = 0
@@ -1118,6 +1139,18 @@ def code_to_spec(ctx, prec, tally):
                     ev = ev[:-1]
                 if ev:
                     traces.append(ev)
+            # a scripted history: relative rules made of several units
+            w = make_world(os.path.join(ctx.sub('world'), 'units-' + name), backend, path, ntiles, 'config')
+            try:
+                ev, err = random_history(ctx.rng, w, 0, tally, script=unit_script(names))
+            finally:
+                w.close()
+            if err:
+                ctx.violation({'kind': 'exception', 'op': ev[-1]['op'], 'path': path}, '%s/%s path (units script): %s' % (backend, path, err[1]),
+                              {'backend': backend, 'path': path, 'ntiles': ntiles, 'mode': 'config', 'events': ev})
+                ev = ev[:-1]
+            if ev:
+                traces.append(ev)
             if not traces:
                 continue
             r, rejected, propfail = validate_traces(ctx, name, traces, names, path, trunc, prec)
